@@ -211,6 +211,11 @@ func init() {
 			}
 			if len(plain) > 0 {
 				ec.Vars[gen.Pick(t, "c11.badvar.name", plain)] = gen.Pick(t, "c11.badvar.text", varTexts)
+				// several ill-formed values at once: which one is reported must not depend on
+				// the iteration order of the variables map
+				for n := gen.Uniform(t, "c11.badvar.more", 3); n > 0 && len(plain) > 1; n-- {
+					ec.Vars[gen.Pick(t, "c11.badvar.name2", plain)] = gen.Pick(t, "c11.badvar.text2", varTexts)
+				}
 			}
 		}
 		if !k.OverdraftFlag && gen.Chance(t, "unknownflag", 30) {
@@ -278,6 +283,16 @@ func inflight(c any) {
 	ev.WriteReplay(filepath.Join(dir, "inflight-"+sh+".json"), os.Getenv("VERIF_PROP"), c, &ev.Verdict{Violation: "process died while executing this case"})
 }
 
+// exactSummary is fullSummary plus the message of the error: "the same result" includes which
+// error is reported (C11 only; across stores, C10 compares classes).
+func exactSummary(r hx.Real) string {
+	s := fullSummary(r)
+	if !r.OK() && r.Panic == "" && r.ParseErrors == 0 {
+		s += " (" + r.ErrMsg + ")"
+	}
+	return s
+}
+
 func checkC11(c any) *ev.Verdict {
 	ec := c.(*gen.ExecCase)
 	v := &ev.Verdict{}
@@ -338,8 +353,8 @@ func checkC11(c any) *ev.Verdict {
 				ref = r
 				continue
 			}
-			if fullSummary(r) != fullSummary(ref) {
-				return v.Failf("not-repeatable", "%s store: run 1 gives %s, run %d gives %s", kind.name, fullSummary(ref), i+1, fullSummary(r))
+			if exactSummary(r) != exactSummary(ref) {
+				return v.Failf("not-repeatable", "%s store: run 1 gives %s, run %d gives %s", kind.name, exactSummary(ref), i+1, exactSummary(r))
 			}
 		}
 		// (b) inputs untouched
@@ -361,8 +376,8 @@ func checkC11(c any) *ev.Verdict {
 		}
 		wg.Wait()
 		for g := range results {
-			if fullSummary(results[g]) != fullSummary(ref) {
-				return v.Failf("concurrent-differs", "%s store: goroutine %d returned %s, sequential run %s", kind.name, g, fullSummary(results[g]), fullSummary(ref))
+			if exactSummary(results[g]) != exactSummary(ref) {
+				return v.Failf("concurrent-differs", "%s store: goroutine %d returned %s, sequential run %s", kind.name, g, exactSummary(results[g]), exactSummary(ref))
 			}
 		}
 		if after := snap(); after != before {
